@@ -778,6 +778,7 @@ class SimProcess:
         self.pending_signals = []
         self.sig_handlers = {}
         self._sentinel = None
+        self._closed = False
         self.reaped_by_other = False  # os.waitpid() outside multiprocessing collected the exit status
         self.status_known = False  # multiprocessing itself has seen the exit status
         self.spawner = None
@@ -800,6 +801,7 @@ class SimProcess:
 
     def is_alive(self):
         w = self.world
+        self._check_closed()
         if not self._started:
             return False
         w.seam(Op("is_alive", self.label))
@@ -813,6 +815,7 @@ class SimProcess:
     @property
     def exitcode(self):
         w = self.world
+        self._check_closed()
         if not self._started:
             return None
         w.seam(Op("exitcode", self.label))
@@ -838,6 +841,7 @@ class SimProcess:
 
     def join(self, timeout=None):
         w = self.world
+        self._check_closed()
         if not self._started:
             raise AssertionError("can only join a started process")
         if w.current_proc() is self:
@@ -864,6 +868,7 @@ class SimProcess:
 
     def _signal(self, sig):
         w = self.world
+        self._check_closed()
         if not self._started:
             raise AttributeError("'NoneType' object has no attribute 'terminate'")
         w.seam(Op("signal%d" % sig, self.label))
@@ -874,6 +879,11 @@ class SimProcess:
     def close(self):
         if self._started and not self.dead:
             raise ValueError("Cannot close a process while it is still running.")
+        self._closed = True
+
+    def _check_closed(self):
+        if self._closed:
+            raise ValueError("process object is closed")
 
     # ---- fault plumbing (kernel asks whether the victim's own step is replaced by a kill)
     def fault_withholds(self, task):
